@@ -428,7 +428,7 @@ def corpus(prop):
 def generate(prop, rng, tier):
     if tier == "quick":
         yield from exhaustive(rng, 4, 3, extra_random=1)
-        count = 1500
+        count = 2000
     elif tier == "thorough":
         yield from exhaustive(rng, 6, 5)
         count = 20000
@@ -526,7 +526,10 @@ def trusted_base(prop):
 
 
 def partial_clauses(prop):
-    return PARTIAL
+    return []
 
 
-PARTIAL = []
+def assumptions(prop):
+    return ["filter_condition / stop_condition are pure total boolean functions of the node (None = absent)",
+            "max_depth is a natural number (0 = no limit); negative or non-integer limits are outside the model",
+            "nodes are always truthy (no subclass defines __bool__/__len__), as for BaseNode/Node/BinaryNode"]
